@@ -12,8 +12,9 @@ use crate::tree::{u128_of, Carry, Form, Header, PItem, PNode, PushVia};
 pub struct Env<'a> {
     pub rt: &'a Rt,
     pub log: &'a Log,
-    /// the development-time switch: true when the `Frame::current` hop finding is listed as known, so
-    /// the interpreter prunes such a hop's body after recording the observation
+    /// inert since the `Frame::current` finding was fixed in /repo (158005a): only true if that signature is
+    /// ever listed as a known finding again, in which case the body of a hop whose carried context did
+    /// not arrive is pruned after the observation was recorded. Normally every hop is run and judged fully.
     pub skip_broken_hops: bool,
     /// first panic caught on a helper thread
     pub fail: &'a std::sync::Mutex<Option<vcore::Fail>>,
@@ -181,8 +182,9 @@ pub fn run_sync(env: &Env, items: &[PItem]) {
                 hop(env, *id, *carry, *fut, items, *pre, *end);
                 check(env, *post);
             }
-            PItem::Join { carry, tasks, schedule, post } => {
-                block_on(join(spawn_tasks(env, *carry, tasks), schedule));
+            PItem::Join { carry, migrate, tasks, schedule, post } => {
+                let hook = || env.push(L::PollThreadEnd { tp: Tp::current() });
+                block_on(join(spawn_tasks(env, *carry, tasks), schedule, *migrate, &hook, env.fail));
                 check(env, *post);
             }
         }
@@ -218,8 +220,9 @@ pub fn run_async<'a>(env: &'a Env<'a>, items: &'a [PItem]) -> BoxFut<'a> {
                     hop(env, *id, *carry, *fut, items, *pre, *end);
                     check(env, *post);
                 }
-                PItem::Join { carry, tasks, schedule, post } => {
-                    join(spawn_tasks(env, *carry, tasks), schedule).await;
+                PItem::Join { carry, migrate, tasks, schedule, post } => {
+                    let hook = || env.push(L::PollThreadEnd { tp: Tp::current() });
+                    join(spawn_tasks(env, *carry, tasks), schedule, *migrate, &hook, env.fail).await;
                     check(env, *post);
                 }
             }
